@@ -5,7 +5,7 @@ From Coq Require Import String.
 From Coq Require Import List NArith ZArith Bool Arith Permutation.
 From Coq Require Import Init.Byte.
 From FFS Require Import Base.Res Base.Bytes AbiType.Syntax AbiType.Model Ffi.Model Ffi.Spec
-     Ffi.Proofs Ffi.ProofsSpec Ffi.ProofsRound Ffi.ProofsSig.
+     Ffi.Proofs Ffi.ProofsSpec Ffi.ProofsRound Ffi.ProofsSig Ffi.ProofsOrder.
 Import ListNotations.
 Local Open Scope string_scope.
 
@@ -62,6 +62,51 @@ Theorem C20_roundtrip_abi :
           (e_type e = EError -> exists m, In m (f_errors ffi) /\ convertABIErrorToFFIError e = Ok m).
 Proof. exact roundtrip_abi. Qed.
 Print Assumptions C20_roundtrip_abi.
+
+(* 0c'. Go map order on the way back.  [sperm s s'] (Spec.v): s' is s with the entries of every
+       Properties map, at every depth, in another order.  The conversion of a parameter gives the
+       same class, and the same parameter when Ok, for s and s' ([requiv]; only which member an error
+       names may differ) -- for every schema value and verdict, not only generated ones. *)
+Theorem C20_map_order_independent :
+  forall name verdict s s',
+    sperm s s' ->
+    requiv (convertFFIParam (mkPin name verdict (Some (Some s))))
+           (convertFFIParam (mkPin name verdict (Some (Some s')))).
+Proof. exact map_order_convert. Qed.
+Print Assumptions C20_map_order_independent.
+
+(* 0c''. Hence the round trip 0a holds for every order in which the maps are ranged over
+        ([faithful_upto]: the unmarshalled struct is the marshalled one up to [sperm]). *)
+Theorem C20_roundtrip_any_order :
+  forall e,
+  (valid_params (e_inputs e) -> valid_params (e_outputs e) ->
+   exists m, convertABIFunctionToFFIMethod e = Ok m /\
+     forall pins rets, Forall2 faithful_upto pins (m_params m) -> Forall2 faithful_upto rets (m_returns m) ->
+       ConvertFFIMethodToABI (m_name m) pins rets =
+       Ok (mkEntry EFunction (e_name e) (map norm (e_inputs e)) (map norm (e_outputs e)))) /\
+  (valid_params (e_inputs e) ->
+   exists m, convertABIEventToFFIEvent e = Ok m /\
+     forall pins, Forall2 faithful_upto pins (m_params m) ->
+       ConvertFFIEventDefinitionToABI (m_name m) pins = Ok (mkEntry EEvent (e_name e) (map norm (e_inputs e)) [])) /\
+  (valid_params (e_inputs e) ->
+   exists m, convertABIErrorToFFIError e = Ok m /\
+     forall pins, Forall2 faithful_upto pins (m_params m) ->
+       ConvertFFIErrorDefinitionToABI (m_name m) pins = Ok (mkEntry EError (e_name e) (map norm (e_inputs e)) [])).
+Proof. exact roundtrip_any_order. Qed.
+Print Assumptions C20_roundtrip_any_order.
+
+(* non-vacuity of [sperm]: a two-member tuple schema with its members swapped *)
+Example C20_map_order_nonvacuous :
+  let det t i := Some (mkDetails (str t) [] false i) in
+  let leaf t i := Some (Schema (str "string") None (det t (Some i)) [] None) in
+  let s := Schema (str "object") None (det "tuple" None) [(str "a", leaf "string" 0%Z); (str "b", leaf "bytes" 1%Z)] None in
+  let s' := Schema (str "object") None (det "tuple" None) [(str "b", leaf "bytes" 1%Z); (str "a", leaf "string" 0%Z)] None in
+  sperm s s' /\ s <> s' /\ is_ok (convertFFIParam (mkPin (str "x") true (Some (Some s')))) = true.
+Proof.
+  cbv zeta. split; [|split; [discriminate|vm_compute; reflexivity]].
+  cbn. repeat split.
+  eexists. split; [apply perm_swap|]. cbn. repeat split; try reflexivity; exists []; split; constructor.
+Qed.
 
 (* 0d. The stand-alone signature helper returns the entry's own signature, on parameters the parser
        accepts and that spell every type with explicit widths (no "int", "uint", "fixed", "ufixed"
